@@ -207,7 +207,7 @@ def resSizeOk (c : PCtx) (dm : Nat) (i : Instr) : Bool :=
               | .call (.fn g) _ =>
                 (match prog.funcs[g]? with
                  | some gf => sizesOf prog fs == sizesOf prog gf.resultTys
-                 | none => true)
+                 | none => false)
               | _ => true)
            | none => true)
         | _ => true)
